@@ -232,6 +232,11 @@ func spellRoot(root string, as int) string {
 		if wd := workerDir(); wd != "" {
 			return wd + "/" + p
 		}
+	case 7:
+		// only for a root handed over in memory: its NAME is the project directory itself
+		return projDir + "/"
+	case 8:
+		return projDir + "/."
 	case 6:
 		// up and down again: ../<name of the working directory>/a/p/root.jst
 		if wd := workerDir(); wd != "" {
